@@ -185,6 +185,62 @@ Proof.
       unfold processed. destruct (Nat.eq_dec r' n); [right; split; lia|left; lia].
 Qed.
 
+Lemma mapO_total {A B} (f : A -> option B) l :
+  (forall a, In a l -> exists b, f a = Some b) -> exists l', mapO f l = Some l'.
+Proof.
+  induction l as [|a l IH]; intros H; cbn [mapO]; [eauto|].
+  destruct (H a (or_introl eq_refl)) as [b ->]. destruct IH as [l' ->]; [intros x Hx; apply H; right; exact Hx|]. eauto.
+Qed.
+
+(* cse never gets stuck on a well-formed genome *)
+Lemma cse_cell_some r c st : r < R -> c < C -> CInv (S r) c st -> exists st', cse_cell cmp st (r, c) = Some st'.
+Proof.
+  destruct st as [g m]. intros Hr Hc (I1 & I2 & I3 & _). cbn [fst snd] in *. unfold cse_cell. cbn [fst snd].
+  pose proof (proj1 (ind_ok_iff _ _ _) I1) as (_ & _ & P3 & _).
+  destruct (P3 r c) as (ge & -> & Hok); [lia|lia|]. rewrite I2, I3 in Hok.
+  destruct (mapO_total (cse_arg cmp g m) (arguments ge)) as [args' ->]; [|eauto].
+  intros al Hal. destruct (gene_ok_args ss Hss _ _ _ _ _ _ _ Hok Hal) as [[B1 B2] B3].
+  unfold cse_arg, gene_at. rewrite I2, I3.
+  replace (Nat.ltb (l_index al) R) with true by (symmetry; apply Nat.ltb_lt; exact B2).
+  replace (Nat.ltb (l_cat al) C) with true by (symmetry; apply Nat.ltb_lt; exact B3). cbn [andb].
+  destruct (P3 (l_index al) (l_cat al)) as (ga & -> & _); [lia|lia|].
+  destruct (kfind cmp ga m); eauto.
+Qed.
+
+Lemma cse_row_some r : r < R -> forall k c0 st, c0 + k = C -> CInv (S r) c0 st ->
+  exists st', foldO (cse_cell cmp) (map (fun c => (r, c)) (seq c0 k)) st = Some st'.
+Proof.
+  intros Hr. induction k as [|k IH]; intros c0 st Hk Hinv; cbn [seq map foldO]; [eauto|].
+  destruct (cse_cell_some r c0 st Hr) as [st1 E]; [lia|exact Hinv|]. rewrite E.
+  apply (IH (S c0)); [lia|]. eapply cse_step; [exact Hr|lia|exact Hinv|exact E].
+Qed.
+
+Lemma cse_rows_some : forall n st, n <= R -> CInv n 0 st ->
+  exists st', foldO (cse_cell cmp) (cse_loci n C) st = Some st'.
+Proof.
+  induction n as [|n IH]; intros st Hn Hinv; [cbn; eauto|].
+  rewrite cse_loci_S, foldO_app.
+  destruct (cse_row_some n Hn C 0 st (Nat.add_0_l C) Hinv) as [st1 E]. rewrite E.
+  apply IH; [lia|].
+  pose proof (cse_row n Hn C 0 st st1 (Nat.add_0_l C) Hinv E) as (I1 & I2 & I3 & I4 & I5 & I6).
+  unfold CInv. split; [exact I1|]. split; [exact I2|]. split; [exact I3|]. split; [exact I4|]. split.
+  - intros k lw Hin. destruct (I5 _ _ Hin) as (J1 & J2 & J3). repeat split; auto. lia.
+  - intros r' c' Hr' Hc' Hp. apply I6; auto. destruct Hp as [Hp|[_ Hp]]; [|lia].
+    unfold processed. destruct (Nat.eq_dec r' n); [right; split; lia|left; lia].
+Qed.
+
+Lemma cse_genome_total g :
+  ind_ok_b ss patch g = true -> rows g = R -> cats g = C ->
+  (forall r c ge, r < R -> c < C -> cell g r c = Some ge -> K ge) ->
+  exists g', cse_genome cmp g = Some g'.
+Proof.
+  intros Hg HR HC HK. unfold cse_genome. rewrite HR, HC.
+  destruct (cse_rows_some R (g, [])) as [st ->]; [lia| |eauto].
+  unfold CInv. cbn [fst snd]. split; [exact Hg|]. split; [exact HR|]. split; [exact HC|]. split; [exact HK|]. split.
+  - intros k lw [].
+  - intros r' c' Hr' _ [Hp|[Hp Hq]]; lia.
+Qed.
+
 Lemma cse_genome_wf g g' :
   ind_ok_b ss patch g = true -> rows g = R -> cats g = C ->
   (forall r c ge, r < R -> c < C -> cell g r c = Some ge -> K ge) ->
@@ -274,45 +330,93 @@ Proof.
   rewrite andb_true_iff, !negb_true_iff, !Z.ltb_ge. lia.
 Qed.
 
-(* cse() of the repaired tree keeps individuals well-formed *)
-Lemma cse_wf ss patch i i' :
-  wf_sset_b ss = true -> ind_ok_b ss patch (i_gen i) = true ->
-  cse i = Some i' ->
+(* the keys of cse(): symbols of the symbol set, constants that are numbers *)
+Definition K0n (ss : sset) : sym -> f64 -> Prop :=
+  fun s p => sym_in_b ss s = true /\ (s_parametric s = true -> nonan p).
+
+Section Repaired.
+Variable ss : sset.
+Hypothesis Hss : wf_sset_b ss = true.
+
+Lemma K_coherent a b : K (K0n ss) a -> K (K0n ss) b -> s_opcode (g_sym a) = s_opcode (g_sym b) ->
+  s_argcats (g_sym a) = s_argcats (g_sym b) /\ s_parametric (g_sym a) = s_parametric (g_sym b).
+Proof. intros [Ha _] [Hb _] Hop. eapply sym_in_coherent; eauto. Qed.
+
+(* on such keys the repaired gene_cmp induces an equivalence: it is a strict weak ordering *)
+Lemma gene_cmp_equiv_refl k : K (K0n ss) k -> gene_equiv gene_cmp k k = true.
+Proof.
+  intros Hk. apply gene_equiv_char; [intros _; auto|]. split; [reflexivity|].
+  destruct (is_terminal (g_sym k)); [|reflexivity].
+  destruct (s_parametric (g_sym k)) eqn:Ep; [|exact I].
+  apply par_incomp_key; [apply Hk; exact Ep|apply Hk; exact Ep|reflexivity].
+Qed.
+
+Lemma gene_cmp_equiv_trans a b c : K (K0n ss) a -> K (K0n ss) b -> K (K0n ss) c ->
+  gene_equiv gene_cmp a b = true -> gene_equiv gene_cmp b c = true -> gene_equiv gene_cmp a c = true.
+Proof.
+  intros Ha Hb Hc Hab Hbc.
+  apply gene_equiv_char in Hab; [|apply K_coherent; assumption].
+  apply gene_equiv_char in Hbc; [|apply K_coherent; assumption].
+  destruct Hab as [O1 H1]. destruct Hbc as [O2 H2].
+  apply gene_equiv_char; [apply K_coherent; assumption|]. split; [congruence|].
+  destruct (K_coherent a b Ha Hb O1) as [Cac Cpar]. destruct (K_coherent b c Hb Hc O2) as [_ Cp2].
+  unfold is_terminal in *. rewrite <- Cac, <- Cpar in H2.
+  destruct (s_argcats (g_sym a)).
+  - destruct (s_parametric (g_sym a)) eqn:Ep; [|exact I].
+    assert (Na : nonan (g_par a)) by (apply Ha; exact Ep).
+    assert (Nb : nonan (g_par b)) by (apply Hb; congruence).
+    assert (Nc : nonan (g_par c)) by (apply Hc; congruence).
+    apply par_incomp_key; auto. apply par_incomp_key in H1; auto. apply par_incomp_key in H2; auto. congruence.
+  - congruence.
+Qed.
+
+(* irreflexivity and transitivity of the order itself, for the record *)
+Lemma gene_cmp_irrefl k : K (K0n ss) k -> gene_cmp k k = false.
+Proof.
+  intros Hk. pose proof (gene_cmp_equiv_refl k Hk) as H. unfold gene_equiv in H.
+  apply andb_true_iff in H. destruct H as [H _]. apply negb_true_iff in H. exact H.
+Qed.
+
+Lemma cells_are_keys patch g : ind_ok_b ss patch g = true ->
+  forall r c ge, r < rows g -> c < cats g -> cell g r c = Some ge -> K (K0n ss) ge.
+Proof.
+  intros Hg r c ge Hr Hc Hcell. unfold K, K0n.
+  pose proof (proj1 (ind_ok_iff _ _ _) Hg) as (_ & _ & P3 & _).
+  destruct (P3 r c Hr Hc) as (ge0 & Hge0 & Hok). rewrite Hcell in Hge0. inversion Hge0. subst ge0.
+  apply gene_ok_inv in Hok. destruct Hok as (S1 & _ & _ & _ & _ & _ & S7). split; [exact S1|exact S7].
+Qed.
+
+(* cse() of the repaired tree keeps individuals well-formed ... *)
+Lemma cse_wf patch i i' :
+  ind_ok_b ss patch (i_gen i) = true -> cse i = Some i' ->
   ind_ok_b ss patch (i_gen i') = true /\ i_age i' = i_age i /\ i_xt i' = i_xt i.
 Proof.
-  intros Hss Hg H. unfold cse in H.
+  intros Hg H. unfold cse in H.
   destruct (cse_genome gene_cmp (i_gen i)) as [g'|] eqn:E; [|discriminate].
   inversion H. subst. cbn [with_gen i_gen i_age i_xt]. split; [|auto].
-  set (K0 := fun (s : sym) (p : f64) => sym_in_b ss s = true /\ (s_parametric s = true -> nonan p)).
-  assert (Hcoh : forall a b, K K0 a -> K K0 b -> s_opcode (g_sym a) = s_opcode (g_sym b) ->
-            s_argcats (g_sym a) = s_argcats (g_sym b) /\ s_parametric (g_sym a) = s_parametric (g_sym b)).
-  { intros a b [Ha _] [Hb _] Hop. eapply sym_in_coherent; eauto. }
-  eapply (cse_genome_wf gene_cmp K0) with (R := rows (i_gen i)) (C := cats (i_gen i)); try exact E; auto.
-  - (* reflexive *)
-    intros k Hk. apply gene_equiv_char; [intros _; auto|]. split; [reflexivity|].
-    destruct (is_terminal (g_sym k)); [|reflexivity].
-    destruct (s_parametric (g_sym k)) eqn:Ep; [|exact I].
-    apply par_incomp_key; [apply Hk; exact Ep|apply Hk; exact Ep|reflexivity].
-  - (* transitive *)
-    intros a b c Ha Hb Hc Hab Hbc.
-    apply gene_equiv_char in Hab; [|apply Hcoh; assumption].
-    apply gene_equiv_char in Hbc; [|apply Hcoh; assumption].
-    destruct Hab as [O1 H1]. destruct Hbc as [O2 H2].
-    apply gene_equiv_char; [apply Hcoh; assumption|]. split; [congruence|].
-    destruct (Hcoh a b Ha Hb O1) as [Cac Cpar]. destruct (Hcoh b c Hb Hc O2) as [_ Cp2].
-    unfold is_terminal in *. rewrite <- Cac, <- Cpar in H2.
-    destruct (s_argcats (g_sym a)).
-    + destruct (s_parametric (g_sym a)) eqn:Ep; [|exact I].
-      assert (Na : nonan (g_par a)) by (apply Ha; exact Ep).
-      assert (Nb : nonan (g_par b)) by (apply Hb; congruence).
-      assert (Nc : nonan (g_par c)) by (apply Hc; congruence).
-      apply par_incomp_key; auto. apply par_incomp_key in H1; auto. apply par_incomp_key in H2; auto. congruence.
-    + congruence.
-  - (* every cell is a good key *)
-    intros r c ge Hr Hc Hcell. unfold K, K0.
-    pose proof (proj1 (ind_ok_iff _ _ _) Hg) as (_ & _ & P3 & _).
-    destruct (P3 r c Hr Hc) as (ge0 & Hge0 & Hok). rewrite Hcell in Hge0. inversion Hge0. subst ge0.
-    apply gene_ok_inv in Hok. destruct Hok as (S1 & _ & _ & _ & _ & _ & S7). split; [exact S1|exact S7].
+  eapply (cse_genome_wf gene_cmp (K0n ss) gene_cmp_equiv_refl gene_cmp_equiv_trans ss Hss patch
+            (rows (i_gen i)) (cats (i_gen i))); [exact Hg|reflexivity|reflexivity| |exact E].
+  apply (cells_are_keys patch). exact Hg.
+Qed.
+
+(* ... and always returns a result *)
+Lemma cse_total patch i : ind_ok_b ss patch (i_gen i) = true -> exists i', cse i = Some i'.
+Proof.
+  intros Hg. unfold cse.
+  destruct (cse_genome_total gene_cmp (K0n ss) gene_cmp_equiv_refl gene_cmp_equiv_trans ss Hss patch
+              (rows (i_gen i)) (cats (i_gen i)) (i_gen i) Hg eq_refl eq_refl (cells_are_keys patch _ Hg)) as [g' ->].
+  eauto.
+Qed.
+End Repaired.
+
+Lemma gene_cmp_swo ss : wf_sset_b ss = true ->
+  (forall k, K (K0n ss) k -> gene_cmp k k = false) /\
+  (forall a b c, K (K0n ss) a -> K (K0n ss) b -> K (K0n ss) c ->
+     gene_equiv gene_cmp a b = true -> gene_equiv gene_cmp b c = true -> gene_equiv gene_cmp a c = true).
+Proof.
+  intros H. split.
+  - intros k Hk. eapply gene_cmp_irrefl. exact Hk.
+  - intros a b c. eapply gene_cmp_equiv_trans. exact H.
 Qed.
 
 (* the pinned comparator is not a strict weak ordering: two genes with the
